@@ -428,7 +428,8 @@ def jobKlaw (j : Json) : Except String Json := do
                    ((getStrField j "d").toOption.getD ""))
   let docStoich := (dedupCount ((getStrList j "reactants").toOption.getD [])).map (fun sc =>
     Json.arr #[Json.str sc.1, Json.num (JsonNumber.fromNat sc.2)])
-  return Json.mkObj [("value", match Expr.eval env law with | some v => Codec.enc v | none => Json.null),
+  let value := if ty == "general" then docEval env law else Expr.eval env law
+  return Json.mkObj [("value", match value with | some v => Codec.enc v | none => Json.null),
                      ("idents", Json.arr ((law.idents).map Json.str).toArray),
                      ("stoich", Json.arr docStoich.toArray)]
 
